@@ -140,6 +140,8 @@ def check(prog: Program, rep):
     from rules.values import coefficients_converted
     coefficients_converted(prog, rep, "C07.R8", ["kLeastAbsErrors", "kLeastAbsErrorsCycles"])
     error_variables_rule(prog, rep, "C07.R8")
+    from rules.values import scaling_factors_converted_in_readers
+    scaling_factors_converted_in_readers(prog, rep, "C07.R3", [("kLeastAbsErrors", "get_objective_value"), ("kLeastAbsErrorsCycles", "get_objective_value")])
     from rules.values import python_arithmetic as _pa
     from sa.pm import AnalysisError as _AE
     if _pa(prog, rep, "C07.R8", [prog.own_method(c, "is_valid_solution") for c in ['kLeastAbsErrors', 'kLeastAbsErrorsCycles']],
